@@ -46,12 +46,22 @@ NOTES = {
     "C15-m5": "missed by the first version of the check; caught after the fresh-process leg got 35% documents with a 5-70 KB string and more set / multiset option sets",
     "C16-m5": "the delivered patch no longer applied after repair D36 rewrote renderYaml; re-made by hand on the current tree. Caught after strings holding literal \\U0001F600 text were added to the pool",
     "C16-m6": "re-made by hand after D36 like C16-m5. Caught after strings ending in '- 1e+06' / 'k: 3e+21' and the YAML text of another document as a string value were added",
+    "C05-m5": "missed by the first version of the check (no array held one value more than 255 times); caught after multisets with multiplicities 255/256/257/300 exchanged between the sides were added",
+    "C05-m6": "missed by the first version of the check (documents under MERGE were always null-free, which the biconditional does not need); caught after MERGE pairs with null members were added to C05",
+    "C11-m6": "missed by the first version of the check; caught after gen.PathTwins (a nested member k1 -> k2 next to a sibling key spelling 'k1 k2', 'k1/k2', 'k1.k2' ..., both changing) was added",
+    "C17-m5": "missed by the first version of the check (C17 used only the plain key pool); caught after 30% of the C17 cases draw keys and strings from the nasty / payload pools (control characters, quotes, backslashes)",
+    "C17-m6": "missed by the first version of the check (no run of the top-level binary with -v2=false in C17); caught after the C17 cli leg was added; C14 catches it too at higher case counts",
+    "C18-m5": "missed by the first version of the check; caught after the keys %41, 100%25, a%2Fb, q%20r were added to the key pool",
+    "C12-m5": "missed by the first version of the check (C12 only called the library); caught after the C12 cli leg (-f merge -p, 35% with -yaml, patches holding 2^63, DEL, NEL, U+FFFE) was added",
+    "C12-m6": "missed by the first version of the check; caught by the C12 cli leg (per cent signs in patch values and member names)",
     "C14-m2": "missed by the first version of the check (stdin was always a pipe); caught after a run with stdin redirected from a regular file was added",
 }
 
 os.makedirs("/verif/seeded", exist_ok=True)
 for res in sorted(glob.glob("/tmp/mut-results/*.json")):
     mid = os.path.basename(res)[:-5]
+    if len(sys.argv) > 1 and mid not in sys.argv[1:]:
+        continue
     prop, m = mid.split("-")
     src = "/tmp/mut-%s-out/%s" % (prop, m)
     try:
@@ -83,5 +93,11 @@ for res in sorted(glob.glob("/tmp/mut-results/*.json")):
         "caught": any(v["rc"] == 1 for v in r["checks"].values()),
         "note": NOTES.get(mid, ""),
     }
+    try:
+        prev = json.load(open(os.path.join(dst, "meta.json")))
+        if "repo_run" in prev:
+            out["repo_run"] = prev["repo_run"]
+    except Exception:
+        pass
     json.dump(out, open(os.path.join(dst, "meta.json"), "w"), indent=1)
     print(mid, "caught" if out["caught"] else "MISSED", out["confirmed_by_me"])
